@@ -490,17 +490,31 @@ func (o *loopOracle) onCycle(c *Cycle) {
 		faulty = true
 	}
 	req := c.After.Pwm
-	if o.props["C12"] && lf.lo == 0 && lf.hi == 255 && directNoLimit(lf.spec) && !faulty && c.After.Raises == 0 {
-		// full-range fan with the direct algorithm: the request equals the curve value
+	if o.props["C12"] && directNoLimit(lf.spec) && !faulty && c.After.Raises == 0 && lf.obsRaises == 0 {
+		// the direct algorithm: on a full-range fan the request equals the curve value; on a fan with limits it
+		// is the curve value rescaled into [min,max] (taken within one step, the rescale's rounding is C04's)
 		x := c.After.CurveVal
+		full := lf.lo == 0 && lf.hi == 255
 		want := refmodel.WritesFor(lf.m, x)
+		if !full {
+			x = lf.lo + int((float64(c.After.CurveVal)/255.0)*(float64(lf.hi)-float64(lf.lo)))
+			want = map[int]bool{}
+			for _, xi := range []int{x - 1, x, x + 1} {
+				if xi >= lf.lo && xi <= lf.hi {
+					for v := range refmodel.WritesFor(lf.m, xi) {
+						want[v] = true
+					}
+				}
+			}
+			res.Probe("c12-cycles-judged(fan with limits)")
+		}
 		res.Probe("c12-cycles-judged")
 		if len(c.Writes) > 0 {
 			w := c.Writes[len(c.Writes)-1]
 			if !want[w.Value] {
-				res.Violate("C12", "nearest", "nearest map="+mapKind(lf.spec), w.Seq, c.EndT, "fan %s: request %d wrote %d, nearest supported input(s) %v map to %v", c.Fan, x, w.Value, refmodel.Nearest(refmodel.SupportedInputs(lf.m), x), keysOf(want))
+				res.Violate("C12", "nearest", "nearest map="+mapKind(lf.spec)+" limits="+b2s(!full), w.Seq, c.EndT, "fan %s (limits %d..%d): request %d wrote %d, nearest supported input(s) %v map to %v", c.Fan, lf.lo, lf.hi, x, w.Value, refmodel.Nearest(refmodel.SupportedInputs(lf.m), x), keysOf(want))
 			}
-			if _, ok := lf.m[x]; ok && contains(refmodel.SupportedInputs(lf.m), x) && w.Value != lf.m[x] {
+			if _, ok := lf.m[x]; full && ok && contains(refmodel.SupportedInputs(lf.m), x) && w.Value != lf.m[x] {
 				res.Violate("C12", "exact", "exact map="+mapKind(lf.spec), w.Seq, c.EndT, "fan %s: request %d is a supported input but %d was written instead of %d", c.Fan, x, w.Value, lf.m[x])
 			}
 			res.Probe("c12-writes-judged")
@@ -788,6 +802,26 @@ func init() {
 				up := r.Bool(0.5)
 				p := world.TempProg{Kind: "ramp", Base: 19000, Delta: 62000/n + 1, Every: sc.Tick, Lo: 15000, Hi: 85000}
 				if !up {
+					p.Base, p.Delta = 81000, -(62000/n + 1)
+				}
+				sc.Sensors[i].Prog = p
+			}
+			sc.Variant = "ramp"
+		}
+		return sc
+	}})
+	register(&Family{Name: "c12lim", Run: runLoop("C12"), Gen: func(seed uint64, tier string) *world.Scenario {
+		// fans with limits (configured or measured minimum / maximum): the nearest supported input of a
+		// request may lie outside [min,max]
+		sc := genLoop("c12lim", seed, tier, loopOpts{kinds: []string{"hwmon"}, directOnly: true, neverStopP: 0.7, horizonLo: 20, horizonHi: 50})
+		r := kernel.NewRand(seed, "c12lim.extra")
+		if r.Bool(0.6) {
+			sc.TempWin = 1
+			sc.TempPoll = sc.Tick
+			for i := range sc.Sensors {
+				n := int(sc.Horizon.D()-4*time.Second) / int(sc.Tick.D())
+				p := world.TempProg{Kind: "ramp", Base: 19000, Delta: 62000/n + 1, Every: sc.Tick, Lo: 15000, Hi: 85000}
+				if r.Bool(0.5) {
 					p.Base, p.Delta = 81000, -(62000/n + 1)
 				}
 				sc.Sensors[i].Prog = p
